@@ -167,3 +167,19 @@ for _model in ("PM", "ST", "KS", "MB", "KST"):
                                                for k, n in enumerate(StateFields[self.model].value)}) for step in (5, 6)]
                 ppss.append(F.new(PlanningProblemSolution, 1000 - i, VehicleModel[self.model], t, c, F.new(Trajectory, 5, states)))
             return F.new(Solution, ScenarioID(True, "DEU", "Muc", 2, 1, "T", [1, 2]), ppss, datetime.datetime(2024, 5, 6, 7, 8, 9), None, None)
+
+
+@register
+class NumpyIntegerTimeSteps(SolutionRoundTrip):
+    case = "trajectory whose time steps are numpy integers (e.g. taken from np.arange)"
+    in_schema = True
+    describe = "numpy integer time steps are written as integers (xs:int), read back as the same steps"
+
+    def solution(self, F):
+        states = []
+        for step in np.arange(5, 7):
+            s = mk_state(F, "KS", 0, "s%d_" % int(step))
+            F.setattr(s, "time_step", step)  # numpy.int64
+            states.append(s)
+        pps = F.new(PlanningProblemSolution, 7, VehicleModel.KS, VehicleType.BMW_320i, SupportedCostFunctions.KS.value[0], F.new(Trajectory, 5, states))
+        return F.new(Solution, ScenarioID(False, "DEU", "Muc", 2, 1, "T", 1), [pps], datetime.datetime(2024, 5, 6, 7, 8, 9), None, None)
